@@ -32,7 +32,7 @@ def mkState (shape : Shape) (ncons : Nat) (inner innerRef : Bool) (nT : Nat) : S
 def DS.fresh (d : DS) : DS :=
   { d with st := { chain := d.tree, s := mkState d.shape d.ncons d.inner d.innerRef d.nT } }
 
-/-! selection trees: `T ::= a|b|c|d | i(T,T) | m(T,T,T) | p(T)` (same limits as the harness) -/
+/-! selection trees: `T ::= a|b|c|d | i(T,T) | m(T,T,T) | p(T)`, `p` not directly above a target (same limits as the harness) -/
 
 structure TP where
   rest : List Char
@@ -62,7 +62,9 @@ def parseTree : Nat → TP → Option (Chain × TP)
       else if ch == 'p' then
         (expect '(' { p with rest := xs }).bind fun p1 =>
         (parseTree fuel p1).bind fun (k, p2) =>
-        (expect ')' p2).map fun p3 => (.pass k, p3)
+        match k with
+        | .leaf _ => none
+        | _ => (expect ')' p2).map fun p3 => (.pass k, p3)
       else if ch == 'i' then
         if p.nsel ≥ maxSel then none else
         let id := p.nsel
